@@ -12,25 +12,6 @@ namespace FlacVerif
 namespace Extras
 open Count Strict
 
-/-- `compute_error`, without any oracle hypothesis: one entry per sample, every entry an `i32`. -/
-theorem computeError_fits (coefs : List Int) (shift : Nat) (xs errors : List Int)
-    (h : computeError coefs shift xs = some errors) :
-    errors.length = xs.length ∧ ∀ e ∈ errors, fitsI32 e = true := by
-  unfold computeError at h
-  simp only [] at h
-  split at h
-  · obtain ⟨e1, e2⟩ := computeError32_spec coefs shift xs errors h
-    exact ⟨by rw [e1]; simp, e2⟩
-  · simp only [Option.some.injEq] at h
-    subst h
-    refine ⟨by simp [computeError64], ?_⟩
-    intro e he
-    simp only [computeError64, List.mem_map, List.mem_range] at he
-    obtain ⟨t, _, rfl⟩ := he
-    split
-    · decide
-    · exact wrap32_fits _
-
 /-- What C13 says about one emitted residual, for a given error signal. -/
 def OptimalFor (maxP n : Nat) (warm : List Int) (res : Residual) (errors : List Int) : Prop :=
   res = Residual.ofErrors errors warm.length res.order res.params ∧
@@ -55,7 +36,7 @@ theorem optimal_of_search (errors : List Int) (w maxP n : Nat) (warm : List Int)
     OptimalFor maxP n warm (Residual.ofErrors errors w prc.order prc.ps) errors := by
   subst hel
   obtain ⟨herr, h15, hpl, hdvd, hw, hp⟩ := search_space errors w maxP prc hfit hn hlen hmax hs
-  obtain ⟨hwf, _⟩ := residual_of_search errors w maxP prc hfit hn hlen hmax hs []
+  have hwf := residual_wf_of_search errors w maxP prc hfit hn hlen hmax hs
   have hopt := C13_optimal errors w maxP hmax herr hn hlen prc hs
   simp only [List.length_map] at hopt
   obtain ⟨hok, _, hpm, _⟩ := hopt
